@@ -23,6 +23,11 @@ ALL_DEVS = ["DataFailNoAbort", "CommitStopsAtFirst", "LmtpStatusKey", "EhloNoLog
 
 KEEP = {"Cfg", "Cmd", "Reply", "Tgt", "End", "Crash"}
 
+# annotated temporary / annotated permanent / not annotated at all
+ALL_FAILS = ["temp", "perm", "unspec"]
+BUFS = ["ram", "fs", "autolo", "autohi"]
+CUTS = ["mid", "hdr", "zero"]
+
 CFG = """SPECIFICATION %(spec)s
 CONSTANTS
   Rcpts = {%(rcpts)s}
@@ -98,7 +103,7 @@ def stratified(rng, behs, n):
     faults are injected)."""
     groups = {}
     for b in behs:
-        faults = tuple(sorted({(x["tgt"], x["op"]) for x in b["hist"] if x.get("a") == "Tgt" and (
+        faults = tuple(sorted({(x["tgt"], x["op"], x.get("res") or "st") for x in b["hist"] if x.get("a") == "Tgt" and (
             x.get("res") not in ("ok", "") or any(v != "ok" for v in (x.get("st") or {}).values()))}))
         k = (b["cfg"]["lmtp"], b["cfg"]["defer"], b["cfg"]["nt"], b["cfg"]["shape"], tuple(b["devs"]), faults)
         groups.setdefault(k, []).append(b)
@@ -379,7 +384,7 @@ def repo_test_traces(ctx, open_devs, by_dev):
             events += bad
             st_t = 3900001
             break
-    hcfg = cfg(["ra", "rb", "rc"], [1], ["temp", "perm"], 1000, 1000, devs=open_devs, tail=TRACE_TAIL, spec="TSpec",
+    hcfg = cfg(["ra", "rb", "rc"], [1], ALL_FAILS, 1000, 1000, devs=open_devs, tail=TRACE_TAIL, spec="TSpec",
                holds=["FALSE"])
     verdicts, by_t = ctx.validate("SessionHookTrace", None, events, name="repotests-trace", cfg_text=hcfg)
     ok = drift = viol_n = 0
@@ -470,10 +475,10 @@ def run(ctx, replay):
 
     def job_core():    # core alphabet, one command deeper: one behaviour per (final state, set of event kinds)
         if thorough:
-            c = cfg(["ra", "rb"], [1, 2, 3], ["perm"], 1, 7, devs=open_devs, gen=True,
+            c = cfg(["ra", "rb"], [1, 2, 3], ALL_FAILS, 1, 7, devs=open_devs, gen=True,
                     tail="VIEW GenView\n" + GEN_TAIL, allowed=CORE)
         else:
-            c = cfg(["ra", "rb"], [1, 2], ["perm"], 1, 6, devs=open_devs, gen=True,
+            c = cfg(["ra", "rb"], [1, 2], ALL_FAILS, 1, 6, devs=open_devs, gen=True,
                     tail="VIEW GenView\n" + GEN_TAIL, allowed=CORE)
         return ctx.tlc("Session", None, name="core", workers=4, timeout=2400, cfg_text=c, heap="6g")
 
@@ -481,6 +486,12 @@ def run(ctx, replay):
         return ctx.tlc("Session", None, name="focus", workers=4, timeout=900, heap="2g",
                        cfg_text=cfg(["ra"], [1], [], 0, 8, devs=open_devs, gen=True, tail="VIEW GenView\n" + GEN_TAIL,
                                     allowed=["HELO:", "MAIL:ok", "MAIL:rej", "RCPT:ok", "RSET:", "DROP:"]))
+
+    def job_fclass():  # every failure class (temporary / permanent / not annotated) at every target call
+        return ctx.tlc("Session", None, name="fclass", workers=3, timeout=900, heap="2g",
+                       cfg_text=cfg(["rb"], [2], ALL_FAILS, 1, 6 if thorough else 5, devs=open_devs, gen=True,
+                                    tail="VIEW GenViewRes\n" + GEN_TAIL, holds=["FALSE"],
+                                    allowed=["HELO:", "MAIL:ok", "RCPT:ok", "DATA:ok", "RSET:", "DROP:"]))
 
     def job_spell():   # LMTP: the same recipient in another spelling in a later transaction of the session
         al = ["HELO:", "MAIL:ok", "RCPT:ok", "RCPT:up", "DATA:ok", "RSET:", "DROP:"] + (["DATA:loop"] if thorough else [])
@@ -490,7 +501,7 @@ def run(ctx, replay):
 
     def job_sim(i, n, rc, nts, mf, mc):
         return ctx.tlc("Session", None, name="sim%d" % i, workers=1, timeout=1500, simulate=n, depth=150, heap="2g",
-                       cfg_text=cfg(rc, nts, ["temp", "perm"], mf, mc, devs=open_devs, gen=True, tail=GEN_TAIL))
+                       cfg_text=cfg(rc, nts, ALL_FAILS, mf, mc, devs=open_devs, gen=True, tail=GEN_TAIL))
 
     if replay:
         obj = json.load(open(replay))
@@ -506,6 +517,7 @@ def run(ctx, replay):
             f_focus = ex.submit(job_focus)
             f_core = ex.submit(job_core)
             f_spell = ex.submit(job_spell)
+            f_fclass = ex.submit(job_fclass)
             f_asis = {dv: ex.submit(job_asis, dv) for dv in ALL_DEVS}
             f_sim = [ex.submit(job_sim, i, *a) for i, a in enumerate(sims)]
             f_repo = ex.submit(repo_test_traces, ctx, open_devs, by_dev)   # cheap, independent of the rest
@@ -518,6 +530,7 @@ def run(ctx, replay):
             gf = f_focus.result()
             gc = f_core.result()
             gsp = f_spell.result()
+            gfc = f_fclass.result()
         ctx.cov["states"] = r["distinct"]
         ctx.cov["transitions"] = r["generated"]
         ctx.cov["model_depth"] = r["depth"]
@@ -545,7 +558,7 @@ def run(ctx, replay):
         ctx.cov["core_final_state_behaviours"] = len(core_b)
         ctx.log("core alphabet, one command deeper: %d states, %d (final state, event kinds) classes, %.1fs" % (
             gc["distinct"], len(core_b), gc["wall"]))
-        behs += stratified(ctx.rng, core_b, 25000 if thorough else 5000)
+        behs += stratified(ctx.rng, core_b, 25000 if thorough else 4000)
         if not gf["ok"]:
             raise vlib.Infra("focused behaviour generation failed: %s %s" % (gf["invariant"], gf["error"]))
         fb = behaviours_from(gf)
@@ -555,6 +568,11 @@ def run(ctx, replay):
             raise vlib.Infra("spelling-focused behaviour generation failed: %s %s" % (gsp["invariant"], gsp["error"]))
         sp_b = behaviours_from(gsp)
         ctx.cov["spelling_behaviours"] = len(sp_b)
+        if not gfc["ok"]:
+            raise vlib.Infra("fault-class behaviour generation failed: %s %s" % (gfc["invariant"], gfc["error"]))
+        fc_b = behaviours_from(gfc)
+        ctx.cov["fault_class_behaviours"] = len(fc_b)
+        behs += stratified(ctx.rng, fc_b, 8000 if thorough else 2500)
         # every history that names one mailbox in two spellings across transactions and then reaches DATA
         # is replayed (capped); the rest of the corner is sampled
         sp_hit = [b for b in sp_b if two_spellings(b)]
@@ -570,6 +588,32 @@ def run(ctx, replay):
         behs = dedup(behs)
         if not behs:
             raise vlib.Infra("TLC produced no behaviours")
+        # harness-only concretisation of a connection lost inside DATA: every buffer mode of the endpoint
+        # (ram, fs, auto with the limit below / above the message size) x where the connection is lost
+        # (inside the body, right after the header, before the first byte)
+        def live_cut(b):     # a DATA of class "cut" in a transaction that has an accepted recipient
+            ok = False
+            for h in b["hist"]:
+                if h.get("a") == "Tgt" and h["op"] == "rcpt" and h["res"] == "ok":
+                    ok = True
+                elif h.get("a") == "Cmd" and h["v"] in ("RSET", "HELO"):
+                    ok = False
+                elif h.get("a") == "Cmd" and h["v"] == "DATA":
+                    if h["arg"] == "cut" and ok:
+                        return True
+                    ok = False
+            return False
+        cutb = dedup([dict(b) for b in ex_b + behs if live_cut(b)])
+        extra = []
+        for b in vlib.sample(ctx.rng, cutb, 300 if thorough else 50):
+            extra.append(b)
+            for buf in BUFS:
+                for cp in CUTS:
+                    if (buf, cp) != ("ram", "mid"):
+                        extra.append(dict(b, cfg=dict(b["cfg"], buf=buf, cutpos=cp)))
+        ctx.cov["cut_data_behaviours"] = len(cutb)
+        ctx.cov["cut_data_variants_replayed"] = len(extra)
+        behs = dedup(behs + extra)
     ctx.log("%d behaviours to replay" % len(behs))
 
     # ---- replay on the real endpoint -----------------------------------------
@@ -612,7 +656,7 @@ def run(ctx, replay):
             events = events + c1 + c2
             selftest = {900001: "corrupt-field", 900002: "drop-event"}
 
-    tcfg = cfg(["ra", "rb", "rc"], [1, 2, 3], ["temp", "perm"], 1000, 1000, devs=open_devs,
+    tcfg = cfg(["ra", "rb", "rc"], [1, 2, 3], ALL_FAILS, 1000, 1000, devs=open_devs,
                tail=TRACE_TAIL, spec="TSpec")
     verdicts, by_t = validate_parallel(ctx, "SessionTrace", events, KEEP, tcfg, batch=500)
 
@@ -669,7 +713,8 @@ def run(ctx, replay):
                        "the state graph (quick: <=5 commands, stratified sample of 1000; thorough: <=6 commands, 20000); (b) "
                        "over the core alphabet HELO/MAIL ok,null/RCPT ok/DATA ok/RSET/drop one behaviour per distinct (final "
                        "state, set of event kinds: commands, DATA reply classes, target calls with ok/fail) (quick: <=6 commands, "
-                       "stratified sample of 5000; thorough: <=7 commands, 25000); (c) focused corners: nested MAIL with an idle source bucket; LMTP with one recipient in two spellings "
+                       "stratified sample of 5000; thorough: <=7 commands, 25000); (c) focused corners: every failure class (annotated temporary / permanent / not annotated) at every "
+                       "target call of a two-target transaction; nested MAIL with an idle source bucket; LMTP with one recipient in two spellings "
                        "across the transactions of a session (<=8 commands); (d) "
                        "-simulate with VERIF_SEED up to 12 commands; de-duplicated; stratified = round-robin over protocol x "
                        "mode x targets x routing x deviations x fault placement; non-trivial = "
@@ -691,6 +736,9 @@ def run(ctx, replay):
         "scripted check (sender and body stage); modifiers are not scripted",
         "the client is a raw line-based script played through an in-memory net.Conn handed to the go-smtp server; "
         "events are logged by the server's own goroutine where it takes a command from / puts a reply on the wire",
+        "a connection lost inside DATA is replayed with every buffer mode of the endpoint (ram, fs, auto with the "
+        "limit below and above the message size) and at three positions (inside the body, after the header, before "
+        "the first byte); otherwise the endpoint buffers in RAM",
         "limits: all/ip/source concurrency 10; in the 'hold' configurations source concurrency 1 and another "
         "session of the sender domain src.example (modelled at the limits API: TakeMsg/ReleaseMsg around the "
         "conversation) keeps that permit, so every MAIL/RCPT of that domain waits the built-in 5 s (logical time) "
